@@ -8,6 +8,32 @@ TRUST = ("Trusted: TLC 2026.09.04 (tla2tools 1.8.0) and the CommunityModules Jso
          "concretisation of abstract vectors into Go values; the supervised worker (harness/sup). ")
 
 CLAIMED = {
+    "C01": dict(
+        text="spec/SchemaDecl.tla states RoundTrip (Unserialize o Serialize is the identity on accepted values, Serialize o Unserialize is "
+             "idempotent, also through Values!CBOR, the model of the wire transform); TLC checks it on every state of SchemaMC in mode c01: "
+             "every scalar schema of the C02 universe x every raw representation, containers, every object of the C03 universe with its "
+             "mappings, struct-mapped objects with every field kind, one-of (string/int discriminator, inlined or not) and references. Each "
+             "state is a vector for which the harness really runs Unserialize -> Validate -> Serialize -> Unserialize and Serialize -> "
+             "fxamacker/cbor encode -> decode into any (as atp does) -> Unserialize -> Validate -> Serialize on the real schema and compares the "
+             "Go values, the wire-form shape and the typed entry points; random deeper schemas/values are validated by SchemaTrace.tla.",
+        note=TRUST + "Equality of Go values identifies nil and empty slices/maps and NaN with NaN; the first Unserialize rejecting belongs to "
+             "C02/C03, panics to C04; wire-form details of the model are drift.",
+        technique="TLA+ round-trip law checked by TLC over an enumerated schema/value universe; every state executed on the real code through "
+                  "the real CBOR codec; trace validation of random calls",
+        design="5/C01", engine="tlc-exhaustive"),
+    "C03": dict(
+        text="spec/SchemaSem.tla transcribes object unserialisation (key check, defaulting, per-property conversion, presence rules, shorthand) "
+             "and one-of dispatch; spec/SchemaDecl.tla states the property per rule kind over the set of properties present after defaulting; "
+             "TLC checks ObjExact and SamePaths on every state of SchemaMC in mode c03: all objects with <= 2 properties over every flag "
+             "combination (required, required_if, required_if_not, conflicts, default, disabled) x every subset of supplied properties x "
+             "valid/invalid values, map-based and struct-mapped, sub-objects with and without declared defaults, one-of x discriminator "
+             "present/absent/unknown/convertible x member accepts/rejects, references. Every state is replayed into the real schema; "
+             "random objects are validated line by line by SchemaTrace.tla.",
+        note=TRUST + "Disabled properties on the Validate/Serialize paths and data-mode compatibility are left open by the statement and are "
+             "reported as drift only.",
+        technique="TLA+ transcription checked against a declarative TLA+ statement by TLC; every state replayed into the real code; trace "
+                  "validation",
+        design="5/C03", engine="tlc-exhaustive"),
     "C02": dict(
         text="spec/SchemaSem.tla transcribes Unserialize/Validate/Serialize for int, float, string, bool, pattern, int/string enums "
              "(typed and untyped), list, map and any (with units) rule by rule; spec/SchemaDecl.tla states the property declaratively "
@@ -179,6 +205,15 @@ CLAIMED = {
         technique="TLA+ transcription of the units contract enumerated by TLC; vectors replayed into the code; recorded output "
                   "validated by a trace spec",
         design="5/C16", engine="tlc-exhaustive"),
+    "C17": dict(
+        text="spec/ErrPath.tla builds every (leaf kind x single fault) case wrapped in <= 2 (thorough 3) containers - list, map, map-based "
+             "object, one-of member, struct-mapped object - with the valid input, the input with exactly one fault and the expected path; TLC "
+             "checks SingleFaultRejected on the model and exports the vectors; the harness runs the real Unserialize and Validate and requires "
+             "errors.As(*ConstraintError) and Path (decorations and one-of annotations removed) = the expected path; undeclared keys: the "
+             "object's path and the key named.",
+        note=TRUST + "Error wording is not judged; the valid input rejected or the faulty one accepted belongs to C02/C03.",
+        technique="TLA+ construction of single-fault vectors with their expected paths enumerated by TLC; every vector executed on the real code",
+        design="5/C17", engine="tlc-exhaustive"),
     "C18": dict(
         text="TLC enumerates the full matrix handler signature x declaration x argument list of spec/Funcs.tla (0-2/3 parameters and "
              "0-3 results over native types incl. types merely named error, static and dynamic constructors), checks that the "
